@@ -5,7 +5,7 @@ c="$1"; p="$2"
 cd /repo || exit 2
 if [ -n "$(git status --porcelain --untracked-files=no)" ]; then echo "/repo not clean"; exit 2; fi
 git show "$c" | git apply -R || { echo "cannot revert $c"; exit 2; }
-out=$(cd /verif && ./check "$p" quick 2>&1); code=$?
+out=$(cd /verif && VERIF_OUT_DIR=/tmp/seedrun ./check "$p" quick 2>&1); code=$?
 git checkout -- .
 echo "$out" | grep -E "signature|VIOLATION|BUILD" | cut -c1-220 | head -4
 echo "revert $c vs $p: exit=$code"
